@@ -61,6 +61,14 @@ func genAztecPayload(t *rapid.T, target int) []byte {
 			for i := 0; i < n; i++ {
 				out = append(out, rapid.Byte().Draw(t, "any"))
 			}
+			if rapid.IntRange(0, 2).Draw(t, "stuffy") == 0 {
+				// runs of 0x00 / 0xFF: maximal bit stuffing
+				v := rapid.SampledFrom([]byte{0x00, 0xFF}).Draw(t, "sv")
+				m := rapid.IntRange(2, 70).Draw(t, "sn")
+				for i := 0; i < m; i++ {
+					out = append(out, v)
+				}
+			}
 		case 8: // single character of one mode inside another (shift candidates)
 			rnd("abcdefghij", rapid.IntRange(2, 5).Draw(t, "n1"), "l")
 			rnd("ABC.,!\x80", 1, "one")
@@ -88,10 +96,15 @@ func genAztecPayload(t *rapid.T, target int) []byte {
 				kind := rapid.IntRange(0, 4).Draw(t, "bk")
 				seed := uint64(rapid.IntRange(0, 1<<20).Draw(t, "seed"))
 				sets := []string{"ABCDEFGHIJKLMNOPQRSTUVWXYZ ", "0123456789", "abcdefghijklmnopqrstuvwxyz .,", "", "Aa0!\x01 bB9?\x1b"}
+				stuffy := rapid.IntRange(0, 5).Draw(t, "bulkstuffy")
 				for i := 0; i < n; i++ {
 					x := seed*0x9E3779B97F4A7C15 + uint64(i+1)*0xBF58476D1CE4E5B9
 					x ^= x >> 31
-					if kind == 3 {
+					if stuffy == 0 {
+						out = append(out, 0x00)
+					} else if stuffy == 1 {
+						out = append(out, 0xFF)
+					} else if kind == 3 {
 						out = append(out, byte(128+(x>>8)%128))
 					} else {
 						out = append(out, sets[kind][(x>>8)%uint64(len(sets[kind]))])
